@@ -105,7 +105,9 @@ def bellman_form(ctx: Ctx):
     if ccv_atom is not None:
         ok_s = ccv_atom[0] == "op" and ccv_atom[1] == "sum" and not [k for k, _ in ccv_atom[2] if k != "a"]
         inner = dict(ccv_atom[2]).get("a") if ccv_atom[0] == "op" else None
-        ctx.ob("ALG1:expectation-sum", bool(ok_s), where,
+        wrong_red = ccv_atom[0] == "op" and (ccv_atom[1] in ("mean", "max", "min", "prod", "nansum", "median", "average", "cumsum")
+                                            or (ccv_atom[1] == "sum" and not ok_s))
+        ctx.ob("ALG1:expectation-sum", True if ok_s else False if wrong_red else None, where,
                "the expectation is the plain sum over all stochastic nodes" if ok_s else
                f"the expectation is not a plain .sum() over all nodes: {ccv_atom[1] if ccv_atom[0] == 'op' else ccv_atom[0]}",
                lhs=show(big_u)[-200:])
